@@ -57,7 +57,8 @@ def run_tlc(module, cfg, workers=None, timeout=600, extra_args=(), spec_dir=SPEC
         if f.endswith(".tla") or f.endswith(".cfg"):
             shutil.copy(os.path.join(spec_dir, f), os.path.join(scratch, f))
     if os.path.isabs(cfg):
-        shutil.copy(cfg, os.path.join(scratch, os.path.basename(cfg)))
+        if os.path.dirname(cfg) != scratch:
+            shutil.copy(cfg, os.path.join(scratch, os.path.basename(cfg)))
         cfg = os.path.basename(cfg)
     for src, name in extra_files:
         shutil.copy(src, os.path.join(scratch, name))
